@@ -66,9 +66,20 @@ def gen_case(rng: Rng, i: int, tier: str):
                     "end": rr.wpick([(3, "close"), (2, "ctx"), (2, "exception")]),
                     "read": {"block": rr.pick([16, 4096, 32768, 1048576]), "chunk": rr.pick([17, 4096, 128000000]), "bufsize": rr.pick([16, 512, 8192])},
                     "exc_at": rr.randint(0, 3)}
-    return {"archive": arc, "seq": seq, "open": r.pick(["path", "stream", "anon"]), "end": r.wpick([(3, "close"), (2, "ctx"), (2, "exception")]),
+    case = {"archive": arc, "seq": seq, "open": r.pick(["path", "stream", "anon"]), "end": r.wpick([(3, "close"), (2, "ctx"), (2, "exception")]),
             "read": {"block": r.pick([16, 4096, 32768, 1048576]), "chunk": r.pick([17, 4096, 128000000]), "bufsize": r.pick([16, 512, 8192])},
             "exc_at": r.randint(0, 3)}
+    rd = rng.sub("damage")
+    if rd.chance(0.15):
+        # "the integrity verdicts are right at any point of a session": one flipped bit in the packed data, and verdict calls mixed
+        # with listing calls, resets and an extraction that is allowed to fail
+        ops = ["testzip"] + [rd.wpick([(4, "testzip"), (2, "test"), (3, "reset"), (1, "getnames"), (1, "list"), (2, "extractall_f"), (1, "needs_password")])
+                             for _ in range(rd.randint(1, 4))]
+        rd.shuffle(ops)
+        case["seq"] = [{"op": o} for o in ops]
+        case["damage"] = {"at": rd.random(), "bit": rd.randint(0, 7)}
+        case["end"] = rd.pick(["close", "ctx"])
+    return case
 
 
 def _recipe_names(arc):
@@ -113,6 +124,11 @@ def run_case(case):
 
     total = sum(len(m.data) for m in built.model if m.kind != "dir")
     budget = rw.read_budget(len(built.image), total)
+    if case.get("damage"):
+        try:
+            return _run_damaged(case, built, res, viol, budget, scratch)
+        finally:
+            shutil.rmtree(scratch, ignore_errors=True)
     try:
         try:
             sess = rsess.Session(built, case["open"], case["read"], mirror_dir=scratch)
@@ -202,6 +218,103 @@ def run_case(case):
 
         _t.make_removable(scratch)
         shutil.rmtree(scratch, ignore_errors=True)
+
+
+def _run_damaged(case, built, res, viol, budget, scratch):
+    """One bit of the packed data flipped.  Truth: a fresh session on a stream, sequential code path, same knobs, extracting everything -
+    if that fails or delivers other bytes than were archived (or the reference reader decodes other bytes), the archive IS
+    damaged, and then testzip() must say so (a member name, or an exception) wherever it stands in the session."""
+    import copy
+
+    from ref7z import reader as R
+
+    ref = built.ref
+    end = (ref.data_end or 0) if ref is not None else 0
+    if end <= 0 or case_class(case).get("uses_pyppmd"):
+        res["extra"]["damage_skipped"] = 1
+        res["digest"] = digest_of(["damage-skipped"])
+        return res
+    off = 32 + min(end - 1, int(case["damage"]["at"] * end))
+    img = bytearray(built.image)
+    img[off] ^= 1 << case["damage"]["bit"]
+    dbuilt = copy.copy(built)
+    dbuilt.image = bytes(img)
+    model = {m.name: m.data for m in built.model if m.kind != "dir"}
+    damaged = False
+    try:
+        # same read knobs as the session under test: a decoder fed in small blocks may have delivered every member byte
+        # before it reaches a damaged end-of-stream marker, and then "nothing wrong" is the right verdict
+        fresh = rsess.Session(dbuilt, "stream", case["read"])
+    except Exception:
+        res["extra"]["damage_skipped"] = 1
+        res["digest"] = digest_of(["damage-skipped-open"])
+        return res
+    try:
+        with StepCounter(budget):
+            got = rsess.do_call(fresh, {"op": "extractall_f"}, None)
+        if got[1] != model:
+            damaged = True
+    except (StepBudgetExceeded, MemoryError):
+        raise
+    except Exception:
+        damaged = True
+    finally:
+        try:
+            fresh.finish()
+        except Exception:
+            pass
+    try:
+        b = R.read(dbuilt.image, built.password)
+        if not b.undecoded and {m.name: m.data for m in b.members if m.kind != "dir"} != model:
+            damaged = True
+    except Exception:
+        pass
+    res["probes"]["damaged_archive_sessions"] = 1 if damaged else 0
+    before = hashlib.sha256(dbuilt.image).hexdigest()
+    log = []
+    try:
+        sess = rsess.Session(dbuilt, case["open"], case["read"], mirror_dir=scratch)
+    except Exception as e:
+        res["digest"] = digest_of(["damaged-open-failed", type(e).__name__])
+        return res
+    prev = []
+    try:
+        for ci, call in enumerate(case["seq"]):
+            op = call["op"]
+            res["evals"] += 1
+            try:
+                with StepCounter(budget):
+                    got = rsess.do_call(sess, call, None)
+            except StepBudgetExceeded:
+                viol("call_never_returns", op, "damaged archive: call %d %s after %r exceeded %d steps" % (ci, op, prev, budget), damaged=True)
+                break
+            except Exception as e:
+                log.append((op, "raised", type(e).__name__))
+                prev.append(op)
+                continue
+            if op == "testzip" and damaged and got[1] is None:
+                viol("damaged_archive_certified", "testzip", "byte %d of the packed data has bit %d flipped and a fresh extraction %s; testzip() as call %d after %r returned None"
+                     % (off - 32, case["damage"]["bit"], "fails or delivers other bytes", ci, prev), damaged=True, after_reset="reset" in prev,
+                     after_decoding=any(p in rsess.DECODING for p in prev))
+            if op == "testzip" and got[1] is not None and got[1] not in [m.name for m in built.model]:
+                viol("damaged_archive_verdict_names_no_member", "testzip", "testzip() returned %r, not a member" % (got[1],), damaged=True)
+            log.append((op, got if op != "extractall_f" else sorted(got[1])))
+            prev.append(op)
+        try:
+            sess.finish("ctx" if case["end"] == "ctx" else "close")
+        except Exception as e:
+            log.append(("close", type(e).__name__))
+    except BaseException:
+        sess.abandon()
+        raise
+    writes = sess.device_writes()
+    if writes or hashlib.sha256(sess.image()).hexdigest() != before:
+        viol("archive_modified", "device", "read-mode session on a damaged archive issued %d write/truncate operations" % len(writes), damaged=True)
+    kinds = [c["op"] for c in case["seq"]]
+    res["sigs"].append((["damaged", case["open"], built.nfolders > 1, kinds, damaged], damaged))
+    res["faults"]["bit_flip_in_packed_data"] = 1
+    res["digest"] = digest_of([before, log])
+    return res
 
 
 def _mk(d):
